@@ -695,6 +695,39 @@ func (p *Project) Clone() *Project {
 	return &c
 }
 
+// Trim keeps the first n modules only and removes every import of a dropped module, so
+// that the smaller project still builds (used where histories must stay short).
+func (p *Project) Trim(n int) {
+	if len(p.Mods) <= n {
+		return
+	}
+	for _, m := range p.Mods[n:] {
+		m.Deleted = true
+	}
+	for _, m := range p.Mods[:n] {
+		var keep []Import
+		for _, im := range m.Imports {
+			if im.Target < 0 || im.Target < n {
+				keep = append(keep, im)
+			}
+		}
+		m.Imports = keep
+	}
+	var ents []int
+	for _, e := range p.Entries {
+		if e < n {
+			ents = append(ents, e)
+		}
+	}
+	if len(ents) == 0 {
+		ents = []int{0}
+	}
+	p.Entries = ents
+	if p.Twin >= n {
+		p.Twin = 0
+	}
+}
+
 func (p *Project) EntryPaths() []string {
 	var out []string
 	for _, e := range p.Entries {
